@@ -1,10 +1,12 @@
 import TaffyVerif.Drv.C02
+import TaffyVerif.Drv.C14
 import TaffyVerif.Drv.C13
 import TaffyVerif.Drv.C18
 import TaffyVerif.Drv.C15
 
 def handlers : List (String × Handler) := [
   ("C02", DrvC02.handler),
+  ("C14", DrvC14.handler),
   ("C13", DrvC13.handler),
   ("C18", DrvC18.handler),
   ("C15", DrvC15.handler)
